@@ -115,7 +115,11 @@ func (p *PPM) Value() int64 {
 
 // Compute calculates the premium in satoshis for a given amount in satoshis.
 func (p *PPM) Compute(amtSat uint64) (sat int64) {
-	return int64(amtSat) * p.ppmValue / premiumRateParts
+	// Split the multiplication so that the intermediate product cannot wrap
+	// around for large amounts (amount * ppm exceeds int64 from ~9.2e12 sat at
+	// 100%); the result is the same amount * ppm / 1e6 truncated toward zero.
+	amt := int64(amtSat)
+	return amt/premiumRateParts*p.ppmValue + amt%premiumRateParts*p.ppmValue/premiumRateParts
 }
 
 // Premium rate operations
